@@ -14,7 +14,25 @@ import json
 import random
 import lib
 from lib import g_path, g_bool, g_str, g_tree, g_list, g_option, g_grammar
-from gen_trees import rand_tree, tree_json, tree_from_json, NTS, TERMS
+from gen_trees import rand_tree as _rand_tree, tree_json, tree_from_json, NTS as _NTS, TERMS as _TERMS
+import re as _re
+
+# labels that LOOK like nonterminals to a naive test (start with '<', end with '>') but are terminals for
+# is_nonterminal (regex prefix match of <[^<> ]*>), and near misses; used for closed leaves AND inner nodes
+TRICKY = ["<hr />", "< >", "<a b>", "<", ">", "<a", "a>", "<<a>>", "<!-- c -->", "<a>x", "<>"]
+NTS = _NTS + TRICKY            # labels of inner nodes / open leaves / epsilon nodes
+TERMS = _TERMS + TRICKY        # labels of closed leaves
+_RE_NT = _re.compile(r"<[^<> ]*>")
+
+
+def spec_is_nt(s):
+    """the harness's own reading of the documented nonterminal syntax (prefix match)"""
+    return _RE_NT.match(s) is not None
+
+
+def rand_tree(rng, **kw):
+    kw.setdefault("nts", NTS); kw.setdefault("terms", TERMS)
+    return _rand_tree(rng, **kw)
 from isla.derivation_tree import DerivationTree as T
 from isla.trie import path_to_trie_key, trie_key_to_path
 
@@ -72,13 +90,22 @@ def node_at(t, p):
     return t
 
 
+def spec_struct_eq(a, b):
+    """declarative: same label, same openness, same NUMBER of children, children pairwise equal"""
+    if a.value != b.value or (a.children is None) != (b.children is None):
+        return False
+    if a.children is None:
+        return True
+    return len(a.children) == len(b.children) and all(spec_struct_eq(x, y) for x, y in zip(a.children, b.children))
+
+
 def spec_violations(t, fixed_root):
     """evaluate the declarative statements on the implementation's answers for tree t.
     returns list of (statement, class_or_None, detail)"""
     bad = []
     dn = direct_nodes(t)
     # to_string_yield: string = concatenation of the terminal leaves (document order)
-    from isla.helpers import is_nonterminal
+    is_nonterminal = spec_is_nt
     want = "".join(n.value for _, n in dn if n.children is not None and not n.children and not is_nonterminal(n.value))
     if t.to_string() != want:
         bad.append(("to_string_yield", None, {"impl": t.to_string(), "spec": want}))
@@ -98,6 +125,12 @@ def spec_violations(t, fixed_root):
         if s is not None and s != any(m.children is None for _, m in direct_nodes(n)):
             bad.append(("cache_inv", None, {"path": list(p), "slot": s}))
             break
+    # shash_congr against a freshly built, structurally equal tree (no cached hashes)
+    fr = t.new_ids()
+    if not (t.structurally_equal(fr) and fr.structurally_equal(t)):
+        bad.append(("structurally_equal(fresh copy)", None, {}))
+    elif t.structural_hash() != fr.structural_hash():
+        bad.append(("shash_congr(fresh copy)", None, {"cached": t.structural_hash(), "fresh": fr.structural_hash()}))
     # paths_subtree
     ps = t.paths()
     if [(p, id(n)) for p, n in ps] != [(p, id(n)) for p, n in dn] and \
@@ -169,9 +202,9 @@ def rand_grammar(rng):
     g = {}
     for nt in NTS:
         r = rng.random()
-        if r < 0.06:
+        if r < 0.03:
             continue                       # undefined -> KeyError
-        if r < 0.10:
+        if r < 0.05:
             g[nt] = []                     # no alternative -> assertion
             continue
         g[nt] = [[rng.choice(NTS + TERMS) for _ in range(rng.randint(0, 3))] for _ in range(rng.randint(1, 2))]
@@ -207,6 +240,25 @@ def wide_tree(rng):
     return w
 
 
+def prefix_variant(rng, t):
+    """fresh tree equal in structure to t except that ONE node's child list is a proper prefix of
+    (or a proper extension of) the original child list; the node is the root half of the time"""
+    inner = [p for p, n in direct_nodes(t) if n.children]
+    target = None if not inner else (() if rng.random() < 0.5 else rng.choice(inner))
+
+    def go(p, n):
+        if n.children is None:
+            return T(n.value, None)
+        ks = [go(p + (i,), c) for i, c in enumerate(n.children)]
+        if p == target:
+            if rng.random() < 0.6 and len(ks) > 1:
+                ks = ks[:rng.randint(1, len(ks) - 1)]
+            else:
+                ks = ks + [T(rng.choice(TERMS), [])]
+        return T(n.value, ks)
+    return go((), t)
+
+
 def rand_valid_path(rng, t, nonroot=False):
     ps = [p for p, _ in direct_nodes(t)]
     if nonroot and len(ps) > 1:
@@ -235,6 +287,9 @@ class History:
         self.deep_replace = False
         self.kinds = []
         self.last_dump = {}
+        self.against = {}           # register -> registers it must be compared with
+        self.prefix_pairs = 0       # compared pairs whose child lists are a proper prefix of each other
+        self.stale_hash_seqs = 0    # structural_hash() on host, then replace_path(retain_id=True), then hash compared
 
     # ---- observations on register k
     def observe(self, k, full=True):
@@ -284,11 +339,15 @@ class History:
             p = rand_any_path(rng, t)
             lit, _ = g_res(lambda: tr[p], lambda x: g_pn((x[0], x[1].id)))
             add(f"CTrieGet {k} {g_path(p)} {lit}", f"trie()[{p}]")
-        for _ in range(2):
-            j = rng.randrange(len(self.R))
+        for j in list(self.against.pop(k, [])) + [rng.randrange(len(self.R)) for _ in range(2)]:
             for a, b in ((k, j), (j, k)):
                 ta, tb = self.R[a], self.R[b]
                 se = ta.structurally_equal(tb)
+                if se != spec_struct_eq(ta, tb):
+                    self.specbad.append(("structurally_equal", None, {"impl": se, "a": tree_json(ta), "b": tree_json(tb)}))
+                if not se and len(ta.children or ()) != len(tb.children or ()) and ta.value == tb.value \
+                        and all(spec_struct_eq(x, y) for x, y in zip(ta.children or (), tb.children or ())):
+                    self.prefix_pairs += 1
                 add(f"CSEq {a} {b} {g_bool(se)}", f"R{a}.structurally_equal(R{b})")
                 add(f"CPrefix {a} {b} {g_bool(ta.is_prefix(tb))}", f"R{a}.is_prefix(R{b})")
                 add(f"CPotPrefix {a} {b} {g_bool(ta.is_potential_prefix(tb))}", f"R{a}.is_potential_prefix(R{b})")
@@ -346,7 +405,11 @@ class History:
         r = rng.random()
         if r < 0.12:
             t = dup_id_tree(rng)
-        elif self.wide and r < 0.5:
+        elif self.R and r < 0.34:
+            src = rng.randrange(len(self.R))
+            t = prefix_variant(rng, self.R[src])
+            self.against[len(self.R)] = [src]
+        elif self.wide and r < 0.65:
             t = wide_tree(rng)
         else:
             t = rand_tree(rng, depth=rng.randint(1, 4), max_deg=rng.choice([2, 3, 5]))
@@ -367,6 +430,8 @@ class History:
                            f"replace_path(R{src},{p},R{rep},retain_id={retain})",
                            lambda: [t.replace_path(p, r, retain_id=retain)], dump=retain)
         if kind == "trees":
+            if retain and not spec_struct_eq(node_at(t, p), r):
+                self.stale_hash_seqs += 1     # t was hashed when observed; result is hashed + compared in observe
             if len(p) >= 1:
                 self.deep_replace = True
             for s, cls, d in spec_replace_frame(t, p, r, self.R[-1], retain):
@@ -545,6 +610,16 @@ def run(run):
                         "first_tree": tree_json(h.R[0]) if len(h.R[0].paths()) < 40 else "<large>"})
     run.cov["seconds_generate_and_run_impl"] = round(time.time() - t0, 1)
     run.cov["op_histogram"] = hist
+    run.cov["prefix_child_list_pairs_compared"] = sum(h.prefix_pairs for h in hs)
+    run.cov["hash_then_retain_replace_then_hash_sequences"] = sum(h.stale_hash_seqs for h in hs)
+    lab = {}
+    for h in hs:
+        for t in h.R:
+            for _, n in direct_nodes(t):
+                if n.value in TRICKY:
+                    k_ = ("inner" if n.children else "open" if n.children is None else "closed-leaf")
+                    lab[k_] = lab.get(k_, 0) + 1
+    run.cov["tricky_label_nodes"] = lab
     run.cov["histories"] = len(hs)
     run.cov["observations"] = sum(len(ds) + 1 for h in hs for _, _, ds in h.labels)
     run.cov["max_degree_seen"] = max(len(n.children or ()) for h in hs for t in h.R for _, n in direct_nodes(t))
